@@ -47,6 +47,7 @@ Record fdef := mkF { f_name: string; f_alias: option string; f_ty: ty }.
    c_parent: the dataclass base (single inheritance) - only used for the MRO walk;
    c_by_alias: Config.serialize_by_alias (None = not set);
    c_omit_none: Config.omit_none (None = not set);
+   c_omit_default: Config.omit_default (None = not set); c_defaults: field name -> default value (literal defaults);
    c_sort_keys: Config.sort_keys (to_dict emits the fields sorted by field NAME);
    c_forbid_extra: Config.forbid_extra_keys (from_dict raises ExtraKeysError for a key that is no alias-or-name);
    c_allow_by_name: Config.allow_deserialization_not_by_alias (an aliased field is also read under its name);
@@ -56,6 +57,7 @@ Record fdef := mkF { f_name: string; f_alias: option string; f_ty: ty }.
    method compiles/looks up the packer of self.__class__, i.e. of the runtime class. *)
 Record cdef := mkC { c_name: cname; c_parent: option cname; c_fields: list fdef;
                      c_by_alias: option bool; c_omit_none: option bool;
+                     c_omit_default: option bool; c_defaults: list (string * val);
                      c_sort_keys: bool; c_forbid_extra: bool; c_allow_by_name: bool;
                      c_has_method: bool }.
 Definition env := list cdef.
@@ -101,8 +103,8 @@ Definition norm_err (e: err) : err := match e with XUnionV => XUnionI | _ => e e
 Definition norm {A} (r: res A) : res A := match r with Ok a => Ok a | Err e => Err (norm_err e) end.
 
 (* options of one dialect layer (None = the dialect does not set it / Sentinel.MISSING) *)
-Record opts := mkO { o_by_alias: option bool; o_omit_none: option bool }.
-Definition no_opts : opts := mkO None None.
+Record opts := mkO { o_by_alias: option bool; o_omit_none: option bool; o_omit_default: option bool }.
+Definition no_opts : opts := mkO None None None.
 
 (* effective option (builder.get_dialect_or_config_option): call dialect > Config > default dialect > False.
    [call] is what a call passes as `dialect=` (all classes enable ADD_DIALECT_SUPPORT), [dflt] is the
@@ -113,6 +115,8 @@ Definition eff_by_alias (call dflt: opts) (d: cdef) : bool :=
   opt_or (o_by_alias call) (opt_or (c_by_alias d) (opt_or (o_by_alias dflt) false)).
 Definition eff_omit_none (call dflt: opts) (d: cdef) : bool :=
   opt_or (o_omit_none call) (opt_or (c_omit_none d) (opt_or (o_omit_none dflt) false)).
+Definition eff_omit_default (call dflt: opts) (d: cdef) : bool :=
+  opt_or (o_omit_default call) (opt_or (c_omit_default d) (opt_or (o_omit_default dflt) false)).
 Definition key_of (call dflt: opts) (d: cdef) (f: fdef) : string :=
   if eff_by_alias call dflt d then match f_alias f with Some a => a | None => f_name f end else f_name f.
 
@@ -127,6 +131,15 @@ Definition pack_order (d: cdef) : list fdef := if c_sort_keys d then sort_fields
 
 Definition is_none (v: val) : bool := match v with VNone => true | _ => false end.
 Definition is_opt (t: ty) : bool := match t with TOpt _ => true | _ => false end.
+
+(* `value != <default literal>` for the literal defaults of the grammar (None, int, str) *)
+Definition leaf_eqb (a b: val) : bool :=
+  match a, b with
+  | VNone, VNone => true
+  | VInt x, VInt y => Z.eqb x y
+  | VStr x, VStr y => String.eqb x y
+  | _, _ => false
+  end.
 
 Fixpoint assoc {A} (l: list (string * A)) (k: string) : option A :=
   match l with
@@ -247,15 +260,25 @@ Section Pack.
         end
     end.
 
-  (* body of the generated __mashumaro_to_dict__ of class [d] over attribute closures (is the attribute None?,
-     its packer).  A nullable (Optional) field whose value is None is skipped under omit_none, without
-     evaluating its packer. *)
-  Definition pack_fields_cl (d: cdef) (cl: list (string * (bool * (ty -> res val)))) : res val :=
+  (* is the field left out?  (builder.py, incremental form of to_dict)
+       nullable = Optional type or default None;
+       a nullable field that is None is dropped under omit_none, or under omit_default when its default is None;
+       any field equal to its default is dropped under omit_default *)
+  Definition drop_field (d: cdef) (f: fdef) (x: val) : bool :=
+    let dv := assoc (c_defaults d) (f_name f) in
+    let nullable := is_opt (f_ty f) || match dv with Some VNone => true | _ => false end in
+    let od := eff_omit_default call dflt d in
+    (nullable && is_none x && (eff_omit_none call dflt d || (od && match dv with Some VNone => true | _ => false end)))
+    || (od && match dv with Some dflt_v => leaf_eqb x dflt_v | None => false end).
+
+  (* body of the generated __mashumaro_to_dict__ of class [d] over attribute closures (the attribute, its packer).
+     A dropped field's packer is not evaluated. *)
+  Definition pack_fields_cl (d: cdef) (cl: list (string * (val * (ty -> res val)))) : res val :=
     fmap (fun l => VDict (List.concat l))
       (mapM (fun f => match assoc cl (f_name f) with
                       | None => Err XRaw                       (* AttributeError *)
-                      | Some (isn, g) =>
-                          if eff_omit_none call dflt d && isn && is_opt (f_ty f) then Ok []
+                      | Some (x, g) =>
+                          if drop_field d f x then Ok []
                           else match g (f_ty f) with
                                | Ok y => Ok [(key_of call dflt d f, y)]
                                | Err e => Err e end
@@ -314,7 +337,7 @@ Section Pack.
           match v with
           | VObj rc fs =>
               match target c rc with
-              | Some d => pack_fields_cl d (map (fun kv => match kv with (k, x) => (k, (is_none x, pack x)) end) fs)
+              | Some d => pack_fields_cl d (map (fun kv => match kv with (k, x) => (k, (x, pack x)) end) fs)
               | None => Err XRaw
               end
           | _ =>
@@ -337,7 +360,7 @@ Definition run_pack_o (E: env) (m: mode) (o: opts) (t: ty) (v: val) : res val :=
   end.
 (* ... that sets serialize_by_alias only *)
 Definition run_pack (E: env) (m: mode) (dl: option bool) (t: ty) (v: val) : res val :=
-  run_pack_o E m (mkO dl None) t v.
+  run_pack_o E m (mkO dl None None) t v.
 
 (* ------------------------------------------------------------------ *)
 (* conforming values with exact runtime classes                          *)
@@ -429,8 +452,9 @@ Definition no_lookalike_union (E: env) (t: ty) : bool := no_lookalike_ty E t && 
 Definition opt_compat (o c: option bool) : bool :=
   match o, c with Some b, Some b' => Bool.eqb b b' | _, _ => true end.
 Definition dialect_compat_o (E: env) (o: opts) : bool :=
-  forallb (fun d => opt_compat (o_by_alias o) (c_by_alias d) && opt_compat (o_omit_none o) (c_omit_none d)) E.
-Definition dialect_compat (E: env) (dl: option bool) : bool := dialect_compat_o E (mkO dl None).
+  forallb (fun d => opt_compat (o_by_alias o) (c_by_alias d) && opt_compat (o_omit_none o) (c_omit_none d)
+                    && opt_compat (o_omit_default o) (c_omit_default d)) E.
+Definition dialect_compat (E: env) (dl: option bool) : bool := dialect_compat_o E (mkO dl None None).
 
 (* no class declares two fields of the same name *)
 Fixpoint nodupb (l: list string) : bool :=
@@ -552,7 +576,9 @@ Section Unpack.
     fmap (VObj c)
       (mapM (fun f =>
                match field_lookup d cl f with
-               | None => Err (XMissing (f_name f) c)
+               | None => match assoc (c_defaults d) (f_name f) with
+                         | Some dv => Ok (f_name f, dv)           (* the constructor's default *)
+                         | None => Err (XMissing (f_name f) c) end
                | Some g => match g (f_ty f) with
                            | Ok y => Ok (f_name f, y)
                            | Err XUnmodelled => Err XUnmodelled
